@@ -36,6 +36,7 @@ class Models(Simd):
         R(r"core::slice::<impl \[.*\]>::(iter|iter_mut)$", self.m_slice_iter)
         R(r"core::slice::<impl \[.*\]>::chunks(_exact)?$", self.m_chunks)
         R(r"core::slice::<impl \[.*\]>::len$", self.m_len)
+        R(r"core::slice::<impl \[.*\]>::(first|first_mut|last|last_mut)$", self.m_first_last)
         R(r"core::slice::<impl \[.*\]>::is_empty$", lambda ip, fv, st, d, t, n, a, dty: I(0, 1))
         R(r"core::slice::<impl \[.*\]>::copy_from_slice$|clone_from_slice$", self.m_copy_from_slice)
         R(r"ops::Index(Mut)?<core::ops::Range(Full|To<usize>|From<usize>|Inclusive<usize>|ToInclusive<usize>|<usize>)>.*::index(_mut)?$", self.m_index_range)
@@ -235,8 +236,8 @@ class Models(Simd):
             st.frames[ref[1]][ref[2]] = ip.write_path(cur, ref[3], new)
         return item
 
-    def step(self, ip, st, it):
-        """(Option value, new iterator value)"""
+    def step(self, ip, st, it, back=False):
+        """(Option value, new iterator value); back=True is next_back() (DoubleEndedIterator)"""
         NONE = ("en", ((0, ()),))
         if it[0] == "st" and len(it[1]) == 2 and it[1][0][0] == "i" and it[1][1][0] == "i":
             it = ("it", "range", it[1][0], it[1][1], 0)
@@ -246,10 +247,12 @@ class Models(Simd):
         if it[0] != "it":
             return TOP, None
         k = it[1]
+        if back and k in ("filter", "filtermap", "stepby", "chunks", "take"):
+            return TOP, None            # next_back of these adapters is not modelled
         if k == "range":
-            cur, end, rev = it[2], it[3], it[4]
+            cur, end, rev = it[2], it[3], it[4] ^ (1 if back else 0)
             def pack(c, e):
-                return ("st", (c, e)) if as_struct else ("it", "range", c, e, rev)
+                return ("st", (c, e)) if as_struct else ("it", "range", c, e, it[4])
             if cur[2] >= end[2] and cur[1] >= end[1] and cur[1] >= end[2]:
                 return NONE, pack(cur, end)
             if cur[2] < end[1]:
@@ -267,19 +270,14 @@ class Models(Simd):
             return ("en", ((0, ()), (1, (item,)))), pack(cur, I(max(cur[1], end[1] - 1), end[2]))
         if k == "rev":
             inner = it[2]
-            if inner[0] == "it" and inner[1] == "range":
-                item, new = self.step(ip, st, ("it", "range", inner[2], inner[3], 1 - inner[4]))
-                return item, ("it", "rev", ("it", "range", new[2], new[3], inner[4]))
-            if inner[0] == "it" and inner[1] in ("slice", "cvals", "vals"):
-                flipped = inner[:5] + (1 - inner[5],) if len(inner) > 5 else inner + (1,)
-                item, new = self.step(ip, st, flipped)
-                back = new[:5] + (inner[5] if len(inner) > 5 else 0,)
-                return item, ("it", "rev", back)
-            item, new = self.step(ip, st, inner)
-            return item, ("it", "rev", new if new is not None else inner)
+            if inner[0] == "st":
+                inner = self.as_it(ip, st, inner)
+            item, new = self.step(ip, st, inner, not back)
+            return item, (("it", "rev", new) if new is not None else None)
         if k in ("slice", "cvals", "vals"):
             src, cur, end = it[2], it[3], it[4]
-            rev = it[5] if len(it) > 5 else 0
+            rev0 = it[5] if len(it) > 5 else 0
+            rev = rev0 ^ (1 if back else 0)
             def elem(idx):
                 if k == "slice":
                     return ("ref", src[1], src[2], src[3] + (("i", idx[1] if idx[1] == idx[2] else (idx[1], idx[2])),))
@@ -293,7 +291,7 @@ class Models(Simd):
                     v = v if v is not None else TOP
                 return ("cref", v) if k == "cvals" else v
             def pack(c, e):
-                return ("it", k, src, c, e, rev)
+                return ("it", k, src, c, e, rev0)
             if cur[1] >= end[2]:
                 return NONE, pack(cur, end)
             if cur[2] < end[1]:
@@ -310,6 +308,16 @@ class Models(Simd):
             if it[3]:
                 return ("en", ((0, ()),)), it
             return ("en", ((1, (it[2],)),)), ("it", "once", it[2], 1)
+        if k == "chain" and back:
+            # next_back: the second half first, then the first half
+            ib, nb = self.step(ip, st, it[3], True)
+            nb = nb if nb is not None else it[3]
+            if ib[0] == "en" and all(v == 1 for v, _ in ib[1]):
+                return ib, ("it", "chain", it[2], nb)
+            if ib[0] == "en" and all(v == 0 for v, _ in ib[1]):
+                ia, na = self.step(ip, st, it[2], True)
+                return ia, ("it", "chain", na if na is not None else it[2], nb)
+            return TOP, None
         if k == "chain":
             ia, na = self.step(ip, st, it[2])
             na = na if na is not None else it[2]
@@ -340,9 +348,22 @@ class Models(Simd):
                 return ("en", ((1, (elem,)),)), ("it", "vecvals", ("vec", v[1], v[2] - 1, max(v[3] - 1, 0)))
             # owning iterator over a vector summary: any number of remaining elements
             return ("en", ((0, ()), (1, (elem,)))), ("it", "vecvals", ("vec", v[1], 0, v[3]))
+        if k == "zip" and back:
+            # next_back of Zip first trims the longer side to the length of the shorter one
+            la, lb = self.iter_len(ip, st, it[2]), self.iter_len(ip, st, it[3])
+            if la[0] != la[1] or lb[0] != lb[1]:
+                return TOP, None
+            xa, xb = it[2], it[3]
+            for _ in range(max(la[0] - lb[0], 0)):
+                _, xa2 = self.step(ip, st, xa, True)
+                xa = xa2 if xa2 is not None else xa
+            for _ in range(max(lb[0] - la[0], 0)):
+                _, xb2 = self.step(ip, st, xb, True)
+                xb = xb2 if xb2 is not None else xb
+            it = ("it", "zip", xa, xb)
         if k == "zip":
-            ia, na = self.step(ip, st, it[2])
-            ib, nb = self.step(ip, st, it[3])
+            ia, na = self.step(ip, st, it[2], back)
+            ib, nb = self.step(ip, st, it[3], back)
             new = ("it", "zip", na if na is not None else it[2], nb if nb is not None else it[3])
             va = {v for v, _ in ia[1]} if ia[0] == "en" else {0, 1}
             vb = {v for v, _ in ib[1]} if ib[0] == "en" else {0, 1}
@@ -354,6 +375,16 @@ class Models(Simd):
             if 1 in va and 1 in vb:
                 outs.append((1, (("st", (pa[0][0], pb[0][0])),)))
             return ("en", tuple(outs)), new
+        if k == "enum" and back:
+            ln = self.iter_len(ip, st, it[2])
+            if ln[0] != ln[1]:
+                return TOP, None
+            item, new = self.step(ip, st, it[2], True)
+            newit = ("it", "enum", new if new is not None else it[2], it[3])
+            if item[0] != "en":
+                return TOP, newit
+            idx = I(it[3][1] + ln[0] - 1, it[3][2] + ln[0] - 1)
+            return ("en", tuple((v, (("st", (idx, fs[0])),)) if v == 1 else (0, ()) for v, fs in item[1])), newit
         if k == "enum":
             item, new = self.step(ip, st, it[2])
             cnt = it[3]
@@ -364,6 +395,17 @@ class Models(Simd):
             for v, fs in item[1]:
                 outs.append((v, (("st", (cnt, fs[0])),)) if v == 1 else (0, ()))
             return ("en", tuple(outs)), newit
+        if k == "skip" and back:
+            inner, nsk = it[2], it[3]
+            ln = self.iter_len(ip, st, inner)
+            if nsk[1] != nsk[2]:
+                return TOP, None
+            if ln[1] <= nsk[1]:
+                return NONE, it
+            if ln[0] > nsk[1]:
+                item, new = self.step(ip, st, inner, True)
+                return item, ("it", "skip", new if new is not None else inner, nsk)
+            return TOP, None
         if k == "skip":
             inner, nsk = it[2], it[3]
             if nsk[1] == nsk[2]:
@@ -448,7 +490,7 @@ class Models(Simd):
             return ("en", ((0, ()),)), ("it", "filtermap", cur, clo)
         if k == "map":
             inner, clo = it[2], it[3]
-            item, new = self.step(ip, st, inner)
+            item, new = self.step(ip, st, inner, back)
             newit = ("it", "map", new if new is not None else inner, clo)
             if item[0] != "en":
                 return TOP, newit
@@ -461,7 +503,7 @@ class Models(Simd):
                     outs.append((1, (r,)))
             return ("en", tuple(outs)), newit
         if k == "cloned":
-            item, new = self.step(ip, st, it[2])
+            item, new = self.step(ip, st, it[2], back)
             newit = ("it", "cloned", new if new is not None else it[2])
             if item[0] != "en":
                 return TOP, newit
@@ -496,8 +538,16 @@ class Models(Simd):
         if c[0] == "fnp":
             f = ip.F.fns.get(c[2]) if len(c) > 2 else None
             if f and "mir" in f:
+                r = self.fnp_model(ip, st, c, f, list(args))
+                if r is not NotImplemented:
+                    return r
                 return ip.call_local(f, list(args), st, len(st.frames) - 1)
         return TOP
+
+    def fnp_model(self, ip, st, c, f, args):
+        """hook for domain engines: a function item used as a closure (`.map(Scalar::from_bytes_mod_order_wide)`) is entered directly,
+        so an engine that gives that function a transfer function intercepts it here"""
+        return NotImplemented
 
     def as_it(self, ip, st, v):
         """normalise iterator-like values: Range structs, references to iterators"""
@@ -568,7 +618,7 @@ class Models(Simd):
         if wrapped and getattr(ip, "exact_small_vecs", False) and a[0][0] == "it":
             n_lo, n_hi = self.iter_len(ip, st, a[0])
             if n_lo == n_hi and 0 < n_hi <= 8:
-                items, cur, exact = [], a[0], True
+                items, cur, exact, may_fail = [], a[0], True, False
                 for _ in range(n_hi + 1):
                     item, new = self.step(ip, st, cur)
                     if item[0] != "en" or len(item[1]) != 1:
@@ -577,13 +627,20 @@ class Models(Simd):
                     if item[1][0][0] == 0:
                         break
                     e = item[1][0][1][0]
-                    if e[0] != "en" or len(e[1]) != 1 or e[1][0][0] != okv or len(e[1][0][1]) != 1:
+                    oks = [fs for v, fs in e[1] if v == okv] if e[0] == "en" else []
+                    if len(oks) != 1 or len(oks[0]) != 1:
                         exact = False
                         break
-                    items.append(e[1][0][1][0])
+                    if len(e[1]) != 1:
+                        may_fail = True      # this item may also be the failure variant: the collection may fail, and when it succeeds the element is the success payload
+                    items.append(oks[0][0])
                     cur = new if new is not None else cur
                 if exact and len(items) == n_hi:
-                    return ("en", ((okv, (("arr", tuple(items)),)),))
+                    okval = (okv, (("arr", tuple(items)),))
+                    if not may_fail:
+                        return ("en", (okval,))
+                    failval = (1, (TOP,)) if okv == 0 else (0, ())
+                    return ("en", tuple(sorted((okval, failval), key=lambda x: x[0])))
         v = self.collect_vec(ip, st, a[0], okv)
         fl = self._collect_flags
         if wrapped:
@@ -844,6 +901,27 @@ class Models(Simd):
         if v[0] == "arr":
             return list(v[1])
         return None
+
+    def m_first_last(self, ip, fv, st, depth, t, n, a, dty):
+        """Option<&T>: None iff the slice is empty, else a reference to its first / last element"""
+        base = a[0]
+        ln = ip.length_of(st, base)
+        if ln[0] != "i" or base[0] not in ("ref", "sl"):
+            return NotImplemented
+        last = re.search(r"::last(_mut)?$", n) is not None
+        outs = []
+        if ln[1] == 0:
+            outs.append((0, ()))
+        if ln[2] >= 1:
+            if base[0] == "ref":
+                off_lo, off_hi = 0, 0
+            else:
+                off_lo, off_hi = base[4], base[5]
+            if last:
+                off_lo, off_hi = off_lo + max(ln[1], 1) - 1, off_hi + ln[2] - 1
+            idx = ("i", off_lo) if off_lo == off_hi else ("i", (off_lo, off_hi))
+            outs.append((1, (("ref", base[1], base[2], base[3] + (idx,)),)))
+        return ("en", tuple(outs))
 
     def m_index_range(self, ip, fv, st, depth, t, n, a, dty):
         base, rng = a[0], ip.deconst(a[1])
@@ -1166,12 +1244,26 @@ class Models(Simd):
 
     def m_from_elem(self, ip, fv, st, depth, t, n, a, dty):
         ln = ip.deconst(a[1])
+        if getattr(ip, "exact_small_vecs", False) and ln[0] == "i" and ln[1] == ln[2] and 0 < ln[1] <= getattr(ip, "exact_vec_limit", 8):
+            return ("arr", (ip.deconst(a[0]),) * ln[1])
         return ("vec", a[0], ln[1] if ln[0] == "i" else 0, ln[2] if ln[0] == "i" else 2**32)
 
     def m_vec_push(self, ip, fv, st, depth, t, n, a, dty):
         d = a[0]
         if d[0] == "ref":
             v = ip.deref_val(st, d)
+            if getattr(ip, "exact_small_vecs", False) and (v == ("vec", None, 0, 0) or v[0] == "arr"):
+                # domain engines keep short vectors exact (element-wise), see collect_vec
+                items = () if v[0] == "vec" else v[1]
+                if len(items) < getattr(ip, "exact_vec_limit", 8):
+                    new = ("arr", items + (a[1],))
+                else:
+                    e = a[1]
+                    for x in items:
+                        e = join(e, x)
+                    new = ("vec", e, len(items) + 1, len(items) + 1)
+                st.frames[d[1]][d[2]] = ip.write_path(st.frames[d[1]].get(d[2], TOP), d[3], new)
+                return ("st", ())
             if v[0] == "vec":
                 new = ("vec", join(v[1], a[1]) if v[1] is not None else a[1], v[2] + 1, v[3] + 1)
                 st.frames[d[1]][d[2]] = ip.write_path(st.frames[d[1]].get(d[2], TOP), d[3], new)
